@@ -4,9 +4,11 @@ use serde_json::{json, Value};
 use std::io::{self, BufRead, Write};
 
 mod regs;
+mod timer;
 
 pub struct Ctx {
     pub regs: regs::RegsCtx,
+    pub timer: timer::TimerCtx,
 }
 
 fn dispatch(ctx: &mut Ctx, req: &Value) -> Result<Value, String> {
@@ -14,6 +16,7 @@ fn dispatch(ctx: &mut Ctx, req: &Value) -> Result<Value, String> {
     match cmd {
         "ping" => Ok(json!({"pong": true})),
         c if c.starts_with("regs.") => regs::handle(&mut ctx.regs, c, req),
+        c if c.starts_with("timer.") => timer::handle(&mut ctx.timer, c, req),
         _ => Err(format!("unknown cmd {cmd}")),
     }
 }
@@ -22,7 +25,7 @@ fn main() {
     let stdin = io::stdin();
     let stdout = io::stdout();
     let mut out = io::BufWriter::new(stdout.lock());
-    let mut ctx = Ctx { regs: regs::RegsCtx::default() };
+    let mut ctx = Ctx { regs: regs::RegsCtx::default(), timer: timer::TimerCtx::default() };
     for line in stdin.lock().lines() {
         let line = match line {
             Ok(l) => l,
